@@ -99,33 +99,60 @@ Proof.
   apply Qle_bool_iff. rewrite E. apply Qle_refl.
 Qed.
 
-Theorem params_agree c : gwf c = true -> gguards c = true -> impl_params c = spec_params c.
+(* with Ring.fixed_D15 on, an edge without delay has m = 0, hence order 0: the kernel guard restricts nothing *)
+Lemma kernel_guard_trivial c : g_no_undelayed_kernel c = true.
 Proof.
-  intros Hwf Hg. unfold impl_params, spec_params. apply map_ext_in. intros e He.
-  unfold gguards in Hg. repeat (apply andb_prop in Hg; destruct Hg as [Hg ?]).
-  rename H into Hcr, H0 into Hrate, H1 into Habove, H2 into Hker. rename Hg into Hall.
-  unfold g_all_spread in Hall. rewrite forallb_forall in Hall. specialize (Hall e He).
+  unfold g_no_undelayed_kernel. apply forallb_forall. intros e _. destruct (gd e) eqn:Ed; [reflexivity|].
+  unfold slot_order, slot_m. rewrite Ed. reflexivity.
+Qed.
+
+Lemma zero_div x : (of_nat 0 / x = 0)%Qc.
+Proof. unfold Qcdiv. replace (of_nat 0) with 0%Qc by (apply Qc_is_canon; reflexivity). apply Qcmult_0_l. Qed.
+
+(* the strongest form that is true: every edge whose delay is implemented at all (its source has a delay above the step size)
+   gets the specified (order, rate), provided round(rate, 12) does not merge two different rates *)
+Theorem params_agree_scope c : gwf c = true -> g_above_step c = true -> g_rates_exact c = true -> impl_params c = spec_params c.
+Proof.
+  intros Hwf Habove Hrate. unfold impl_params, spec_params. apply map_ext_in. intros e He.
+  pose proof (kernel_guard_trivial c) as Hker.
   unfold g_no_undelayed_kernel in Hker. rewrite forallb_forall in Hker. specialize (Hker e He).
   unfold g_above_step in Habove. rewrite forallb_forall in Habove. specialize (Habove e He).
   unfold g_rates_exact in Hrate. rewrite forallb_forall in Hrate. specialize (Hrate e He). apply Qceqb_eq in Hrate.
   unfold gwf in Hwf. apply andb_prop in Hwf. destruct Hwf as [_ Hwf]. rewrite forallb_forall in Hwf. specialize (Hwf e He).
   apply andb_prop in Hwf. destruct Hwf as [_ Hd].
   destruct (gd e) as [[d [s|]]|] eqn:Ed.
-  - (* delay and spread *)
-    rewrite Habove, Hrate. unfold slot_rate, slot_order, slot_m. rewrite Ed.
+  - rewrite Habove, Hrate. unfold slot_rate, slot_order, slot_m. rewrite Ed.
     apply andb_prop in Hd. destruct Hd as [Hd _]. rewrite (of_nat_pos_ne d Hd).
     set (n := Z.to_nat (round_half_even (sq (d / s)))).
     assert (Hn : (if (gdde c <? n)%nat then n else gdde c) = Nat.max n (gdde c)).
     { destruct (Nat.ltb_spec (gdde c) n); lia. }
     rewrite Hn. reflexivity.
-  - (* plain delay: only when the repaired mechanism keeps it continuous (dde_approx > 0) *)
-    rewrite Habove, Hrate. unfold slot_rate, slot_order, slot_m. rewrite Ed, Hall.
-    apply andb_prop in Hd. destruct Hd as [Hd _]. rewrite (of_nat_pos_ne d Hd). reflexivity.
-  - (* no delay: pass-through, either because the source is not buffered or because its order is 0 *)
-    destruct (gadd_delay c (gkey c (gsrc e))) eqn:Ga; [|reflexivity].
+  - (* plain delay: kept continuous when dde_approx > 0; with dde_approx = 0 both sides are the order-0 pass-through *)
+    rewrite Habove, Hrate. unfold slot_rate, slot_order, slot_m. rewrite Ed.
+    apply andb_prop in Hd. destruct Hd as [Hd _].
+    destruct (continuous c) eqn:Hc.
+    + rewrite (of_nat_pos_ne d Hd). reflexivity.
+    + assert (H0 : gdde c = 0%nat).
+      { unfold continuous, fixed_dde_steps in Hc. cbn in Hc. destruct (gdde c); [reflexivity|discriminate]. }
+      rewrite H0. destruct (Qceqb (of_nat (steps_of d (gdt c))) 0); rewrite ?zero_div; reflexivity.
+  - destruct (gadd_delay c (gkey c (gsrc e))) eqn:Ga; [|reflexivity].
     rewrite Hrate. rewrite orb_false_r in Hker. apply Nat.eqb_eq in Hker.
-    unfold slot_rate. rewrite Hker. destruct (Qceqb (slot_m c e) 0); [reflexivity|].
-    f_equal. f_equal. unfold of_nat. cbn. unfold Qcdiv. apply Qcmult_0_l.
+    unfold slot_rate. rewrite Hker. destruct (Qceqb (slot_m c e) 0); rewrite ?zero_div; reflexivity.
+Qed.
+
+Theorem params_agree c : gwf c = true -> gguards c = true -> impl_params c = spec_params c.
+Proof.
+  intros Hwf Hg. unfold gguards in Hg. repeat (apply andb_prop in Hg; destruct Hg as [Hg ?]).
+  apply params_agree_scope; assumption.
+Qed.
+
+Lemma gcrashes_never c : gcrashes c = false.
+Proof. reflexivity. Qed.
+
+Theorem gfull_scope c n : gwf c = true -> g_above_step c = true -> g_rates_exact c = true -> gimpl_run c n = Ok (gspec_run c n).
+Proof.
+  intros Hwf Ha Hr. unfold gimpl_run, gspec_run. rewrite gcrashes_never, (params_agree_scope c Hwf Ha Hr).
+  change (impl_srcs c) with (spec_srcs c). reflexivity.
 Qed.
 
 Theorem gimpl_refines_spec c n : gwf c = true -> gguards c = true -> gimpl_run c n = Ok (gspec_run c n).
@@ -145,13 +172,6 @@ Proof.
   destruct (gd e) as [[d [s|]]|]; try discriminate. apply Nat.leb_le in H.
   replace (Nat.max 1 (Z.to_nat (round_half_even (sq (d / s))))) with (Nat.max (Z.to_nat (round_half_even (sq (d / s)))) 0) by lia.
   reflexivity.
-Qed.
-
-(* with Ring.fixed_D15 on, an edge without delay has m = 0, hence order 0: the kernel guard restricts nothing *)
-Lemma kernel_guard_trivial c : g_no_undelayed_kernel c = true.
-Proof.
-  unfold g_no_undelayed_kernel. apply forallb_forall. intros e _. destruct (gd e) eqn:Ed; [reflexivity|].
-  unfold slot_order, slot_m. rewrite Ed. reflexivity.
 Qed.
 
 (* ---- the order/rate formulas of the specification ---- *)
